@@ -21,6 +21,7 @@ pub fn alphabet(prog: &Prog) -> Vec<Action> {
         Action::of(Cmd::StepOut),
         Action::of(Cmd::Continue),
         Action::of(Cmd::Goto(Loc::Abs(prog.image.origin()))),
+        Action::of(Cmd::MoveMem(Loc::PcOff(2), 0xF025)),
     ];
     // breakpoints at up to three interesting addresses of the program
     let mut addrs: Vec<u16> = Vec::new();
